@@ -120,7 +120,7 @@ def instrumented(world, d, opname, fail_at):
     base = str(Path(d))
 
     def point(label):
-        steps.append({"pt": label, "fs": world.project(d)})
+        steps.append({"pt": label, "fs": world.project(d), "at": label})
         i = state["n"]
         state["n"] += 1
         if fail_at is not None and i == fail_at:
@@ -168,8 +168,9 @@ def instrumented(world, d, opname, fail_at):
         if mine(self):
             s = str(self)
             lab = ("unlink_cbin" if s.endswith(".cbin") else "unlink_ch" if s.endswith(".ch") else
-                   "unlink_bin" if s.endswith(".bin") else "unlink_stmp" if s.endswith(".bin_temp") else None)
-            if lab:
+                   "unlink_bin" if s.endswith(".bin") else "unlink_stmp" if s.endswith(".bin_temp") else
+                   "unlink_tmp" if s.endswith(".cbin_tmp") else "unlink_other")
+            if lab != "unlink_other" or self.exists():
                 point(lab)
         return orig["ul"](self, *a, **k)
 
@@ -258,7 +259,11 @@ def one_call(world, d, st, opname, keep, fail_at):
         return None          # the call has no such operation
     steps.append({"pt": "end", "fs": world.project(d)})
     if steps[0]["fs"] != entry_fs:
-        raise tlc.TLCError("projection changed between call entry and the first file operation")
+        # the directory changed through an operation that is not instrumented: a step of its own (not a step of the
+        # specification: drift), so that the property layer still sees every observed directory
+        steps.insert(0, {"pt": "unseen", "fs": entry_fs})
+    for s_ in steps:
+        s_.setdefault("at", "")
     rec["steps"] = steps
     return rec
 
